@@ -25,8 +25,9 @@ def optNatList (j : Json) (k : String) : Except String (Option (List Nat)) :=
 
 def tol : Rat := Generated.eqTolerance
 
-def ofRed (r : Op × List Nat × Bool) : Json :=
-  J.obj [("op", J.ofOp r.1), ("fixed", J.ofNatList r.2.1), ("stale", Json.bool r.2.2)]
+def ofRed (r : Op × List Nat × Bool × Bool) : Json :=
+  J.obj [("op", J.ofOp r.1), ("fixed", J.ofNatList r.2.1), ("stale", Json.bool r.2.2.1),
+         ("exact", Json.bool r.2.2.2)]
 
 def handle (op : String) (j : Json) : Option (Except String Json) :=
   match op with
@@ -43,8 +44,8 @@ def handle (op : String) (j : Json) : Option (Except String Json) :=
     .ok (ofExcept ofRed (taperOffQubits tol A stabs manual (← optNatList j "fixed")))
   | "c16.project" => some do
     let A ← J.op (← J.field j "A")
-    .ok (ofExcept J.ofOp (projectOntoSector tol A (← J.natList (← J.field j "qubits"))
-      (← J.natList (← J.field j "sectors"))))
+    .ok (ofExcept (fun (r : Op × Bool) => J.obj [("op", J.ofOp r.1), ("exact", Json.bool r.2)])
+      (projectOntoSector tol A (← J.natList (← J.field j "qubits")) (← J.natList (← J.field j "sectors"))))
   | "c16.projection_error_sq" => some do
     let A ← J.op (← J.field j "A")
     .ok (ofExcept J.ofRat (projectionErrorSq A (← J.natList (← J.field j "qubits"))
@@ -55,8 +56,9 @@ def handle (op : String) (j : Json) : Option (Except String Json) :=
     .ok (ofExcept J.ofOp (rotateQubitByPauli tol Q P (← J.gq (← J.field j "c2")) (← J.gq (← J.field j "s2"))))
   | "c16.freeze" => some do
     let A ← J.op (← J.field j "A")
-    .ok (J.ofOp (freezeOrbitals tol A (← J.natList (← J.field j "occupied"))
-      (← J.natList (← J.field j "unoccupied")) (← J.bool (← J.field j "prune"))))
+    let r := freezeOrbitalsX tol A (← J.natList (← J.field j "occupied"))
+      (← J.natList (← J.field j "unoccupied")) (← J.bool (← J.field j "prune"))
+    .ok (J.obj [("op", J.ofOp r.1), ("exact", Json.bool r.2)])
   | "c16.prune" => some do
     .ok (J.ofOp (pruneUnusedIndices (← J.op (← J.field j "A"))))
   | "c16.edit" => some do
